@@ -323,4 +323,57 @@ example :
     splitSum ifm 3 4 (meanChunks 11 4) = windowSum ifm 3 0 11 4 := by decide
 example : meanLowered 12345 701172535 36 (-3) (-128) 127 = meanRefInt 12345 701172535 (-5) (-3) (-128) 127 := by decide
 
+/-! ## 11. STRIDED_SLICE masks -/
+
+/-- **`_get_slice_offsets` computes, per input dimension, the value of the specification position that addresses it.**
+    The index-mutating loop (positions `spec`, dimensions `idx`, `new_axis_mask` positions consume no dimension, masked
+    positions keep the default 0 / dim, dimensions beyond the specification are taken in full) equals the recursion over the
+    dimensions `specOffsets` — in which a negative value is counted from the end of the ADDRESSED dimension (seeded defect
+    C01-r5m2 adds `input_shape[spec]` instead) — for every shape, every specification, all masks, both variants. -/
+theorem slice_offsets_eq_spec (clampV : Bool) (shape : List Nat) (vals : List Int) (mask newAxis : Nat) (isBegin : Bool) :
+    getSliceOffsets clampV shape vals mask isBegin newAxis = specOffsets clampV mask newAxis isBegin shape vals 0 := by
+  unfold getSliceOffsets
+  have := sliceOffsetsGo_eq clampV mask newAxis isBegin vals [] [] shape 0 rfl
+  simp only [List.nil_append, List.length_nil] at this
+  cases isBegin <;> simpa using this
+
+/-- **with the clamp (repair C01-51) the offsets are the reference's** `StartForAxis` / `StopForAxis` (stride 1) for every
+    value, in range or not -/
+theorem spec_clamped_eq_ref (mask newAxis : Nat) (isBegin : Bool) :
+    ∀ (vals : List Int) (dims : List Nat) (spec : Nat),
+      specOffsets true mask newAxis isBegin dims vals spec = refOffsets mask newAxis isBegin dims vals spec := by
+  intro vals
+  induction vals with
+  | nil => intro dims spec; simp [specOffsets, refOffsets]
+  | cons v vs ih =>
+    intro dims spec
+    cases dims with
+    | nil => simp [specOffsets, refOffsets]
+    | cons d ds =>
+      simp only [specOffsets, refOffsets]
+      split
+      · exact ih (d :: ds) (spec + 1)
+      · rw [ih ds (spec + 1)]
+        congr 1
+        cases isBegin <;> cases bit mask spec <;> simp [refStart, refStop, sliceVal]
+
+/-- **without the clamp (the unrepaired code) they are the reference's whenever the value addresses the dimension**
+    (`0 ≤ value ≤ dim` after the negative-index conversion) — `_partial`: the statement for all values is false,
+    `slice_unclamped_witness` -/
+theorem sliceVal_in_range_partial (d : Nat) (v : Int) (h : 0 ≤ sliceVal false d v ∧ sliceVal false d v ≤ d) :
+    sliceVal false d v = sliceVal true d v := by
+  simp only [sliceVal, Bool.false_eq_true, if_false, if_true] at h ⊢
+  split <;> (repeat' split) <;> omega
+
+/-- the hypothesis is needed: `x[2:100]` on a dimension of 8 (legal, the reference reads `[2, 8)`) gives the end offset 100, and
+    `x[-20:6]` the begin offset -12 (the compiler then fails an assertion in `address_for_coordinate`) -/
+theorem slice_unclamped_witness :
+    getSliceOffsets false [8] [100] 0 false 0 = [100] ∧ refOffsets 0 0 false [8] [100] 0 = [8] ∧
+    getSliceOffsets false [8] [-20] 0 true 0 = [-12] ∧ refOffsets 0 0 true [8] [-20] 0 = [0] := by decide
+
+/-- non-vacuity, the seeded defect's witness: `x[8,6,4]`, begin `[0,0,-3,0]`, end `[0,8,-1,4]`, `new_axis_mask = 1`: the third
+    position addresses dimension 1 (extent 6): columns 3..4 -/
+example : sliceRanges false [8, 6, 4] [0, 0, -3, 0] [0, 8, -1, 4] 0 0 0 1 = ([0, 3, 0], [8, 5, 4], true) := by decide
+example : sliceRanges false [1, 8, 8, 4] [0, 2, 0, 0] [1, 6, 8, 4] 0 4 2 0 = ([0, 2, 0, 0], [1, 3, 8, 4], true) := by decide
+
 end VelaVerif.Props.C01Rewrites2
